@@ -104,6 +104,8 @@ fn interface_docs() -> Vec<Doc> {
         let mut k = Vec::new();
         push(&mut k, &["package", "p", ".", "q2", ";", "import", "x", ".", "y", ".", "Foo", ";", "import", "a", ".", "K", ";", "parcelable", "Fwd", ";", "parcelable", "z", ".", "Other", ";"]);
         push(&mut k, &["@Ann", "@Two", "(", "k", "=", "1", ",", "flag", ",", "s", "=", "\"v w\"", ")"]);
+        // a key written several times: the parameters are a map, the LAST occurrence is the one it holds (with or without a value)
+        push(&mut k, &["@Rep", "(", "k", "=", "1", ",", "k", "=", "2", ",", "f", ",", "f", "=", "\"x\"", ",", "g", "=", "1", ",", "g", ")"]);
         if oneway_iface { push(&mut k, &["oneway"]); }
         push(&mut k, &["interface", "IListing", "{"]);
         // method 1: all directions, optional names, annotation on argument, transact code
@@ -114,7 +116,7 @@ fn interface_docs() -> Vec<Doc> {
         push(&mut k, &["@Deprecated", "oneway", "void", "voidy", "(", ")", ";"]);
         push(&mut k, &["void", "Voidy", "(", "in"]); t.toks(&mut k); push(&mut k, &["x", ",", ")", ";", "}"]);
         let mut s = String::from("pkg p.q2\nimports x.y|Foo,a|K\nfwd |Fwd,z|Other\n");
-        s += &format!("interface IListing oneway={} ann=@Ann[] @Two[flag=-;k=1;s=\"v w\"]\n", oneway_iface);
+        s += &format!("interface IListing oneway={} ann=@Ann[] @Two[flag=-;k=1;s=\"v w\"] @Rep[f=\"x\";g=-;k=2]\n", oneway_iface);
         let ow = |b: bool| if oneway_iface { "*".to_string() } else { b.to_string() };
         s += &format!(" method first oneway={} ret={} args=[in {} a , out {} - , inout {} inout2 @Nullable[], - {} - ] code=Some(12) ann=\n", ow(false), t.shape(), u.shape(), t.shape(), u.shape(), t.shape());
         s += &format!(" const {} K_1 = {} ann=\n", u.shape(), vs);
